@@ -208,8 +208,38 @@ class BytesMixin:
 
 
 # ----------------------------------------------------------------- lists as z3 sequences --
-def zl(st, ex, term, fresh=True) -> VRef:
-    return VRef(st.alloc(HeapObj("zlist", term, None, fresh), ex.refs))
+def zl(st, ex, term, fresh=True, ekind="str") -> VRef:
+    """Heap cell holding a z3 sequence term; `ekind`: "str" | ("obj", sort name) | ("wrap", ctor, field, inner ekind)."""
+    return VRef(st.alloc(HeapObj("zlist", term, ekind, fresh), ex.refs))
+
+
+def zelem(ekind, t):
+    if ekind == "str" or ekind is None:
+        return VStr(t)
+    if isinstance(ekind, tuple) and ekind[0] == "obj":
+        return VExt(ekind[1], t)
+    raise Unsupported(f"element of a sequence-valued list of kind {ekind!r}")
+
+
+_ZF: dict = {}
+
+
+def zfield(cls, f, esort):
+    """Uninterpreted list field as a sequence:  <cls>.<f>.seq : cls -> Seq(esort)."""
+    key = (cls, f, esort)
+    if key not in _ZF:
+        _ZF[key] = z3.Function(f"{cls}.{f}.seq", ext_sort(cls), z3.SeqSort(ext_sort(esort)))
+    return _ZF[key]
+
+
+def ofield(cls, f, esort):
+    key = ("o", cls, f, esort)
+    if key not in _ZF:
+        _ZF[key] = z3.Function(f"{cls}.{f}", ext_sort(cls), ext_sort(esort))
+    return _ZF[key]
+
+
+TRUTHY = z3.Function("table_truthy", ext_sort("__table__"), B)     # bool(<list of rows>): the table has rows
 
 
 class ZListMixin:
@@ -275,7 +305,7 @@ class ZListMixin:
 
 
 # --------------------------------------------------------------------------- executor --
-class C14Executor(BytesMixin, ZListMixin, UnitsExecutor):
+class _C14Base(BytesMixin, ZListMixin, UnitsExecutor):
     """See module docstring."""
 
     # ---- loop specs also for inlined callees that carry their own (separately verified) contract ----
@@ -372,7 +402,7 @@ class C14Executor(BytesMixin, ZListMixin, UnitsExecutor):
         return super().compare(st, op, a, b, node)
 
     def contains(self, st, container, item, node):
-        if self.is_zlist(st, container) and isinstance(item, VStr):
+        if self.is_zlist(st, container) and isinstance(item, VStr) and st.obj(container.ref).cls in (None, "str"):
             return [(st, VBool(z3.Contains(st.obj(container.ref).data, z3.Unit(item.t))))]
         if self.is_symbytes(item):
             items = self.concrete_items(st, container)
@@ -394,7 +424,8 @@ class C14Executor(BytesMixin, ZListMixin, UnitsExecutor):
     def seq_view(self, st, it):
         if self.is_zlist(st, it):
             t = st.obj(it.ref).data
-            return z3.Length(t), (lambda k, t=t: VStr(t[k]))
+            ek = st.obj(it.ref).cls
+            return z3.Length(t), (lambda k, t=t, ek=ek: zelem(ek, t[k]))
         return super().seq_view(st, it)
 
     def concrete_items(self, st, v):
@@ -405,11 +436,12 @@ class C14Executor(BytesMixin, ZListMixin, UnitsExecutor):
     def binop(self, st, op, a, b, node, inplace=False):
         if op == "Add" and (self.is_zlist(st, a) or self.is_zlist(st, b)):
             ta, tb = self.zterm(st, a), self.zterm(st, b)
-            if ta is not None and tb is not None:
+            if ta is not None and tb is not None and ta.sort() == tb.sort():
+                ek = st.obj(a.ref).cls if self.is_zlist(st, a) else st.obj(b.ref).cls
                 if inplace and self.is_zlist(st, a):
-                    st.heap[a.ref] = HeapObj("zlist", z3.Concat(ta, tb), None, st.obj(a.ref).fresh)
+                    st.heap[a.ref] = HeapObj("zlist", z3.Concat(ta, tb), ek, st.obj(a.ref).fresh)
                     return [(st, None)]
-                return [(st, zl(st, self, z3.Concat(ta, tb)))]
+                return [(st, zl(st, self, z3.Concat(ta, tb), ekind=ek))]
         return super().binop(st, op, a, b, node, inplace)
 
     def e_ListComp(self, n, st):
@@ -419,7 +451,7 @@ class C14Executor(BytesMixin, ZListMixin, UnitsExecutor):
                                                                        for c in n.generators[0].ifs for x in ast.walk(c)):
             mark = len(self.sinks[-1])
             res = self.ev(n.generators[0].iter, st.fork())
-            if len(res) == 1 and self.is_zlist(res[0][0], res[0][1]):
+            if len(res) == 1 and self.is_zlist(res[0][0], res[0][1]) and res[0][0].obj(res[0][1].ref).cls in (None, "str"):
                 del self.sinks[-1][mark:]
                 out = []
                 for (s2, it) in self.ev(n.generators[0].iter, st):
@@ -431,9 +463,9 @@ class C14Executor(BytesMixin, ZListMixin, UnitsExecutor):
     def zlist_method(self, st, obj, name, args, kwargs, node):
         o = st.obj(obj.ref)
         t = o.data
-        if name == "append" and len(args) == 1 and isinstance(args[0], VStr):
+        if name == "append" and len(args) == 1 and isinstance(args[0], VStr) and o.cls in (None, "str"):
             self.note_store(st, obj.ref, node)
-            st.heap[obj.ref] = HeapObj("zlist", z3.Concat(t, z3.Unit(args[0].t)), None, o.fresh)
+            st.heap[obj.ref] = HeapObj("zlist", z3.Concat(t, z3.Unit(args[0].t)), o.cls, o.fresh)
             return [(st, NONE)]
         if name == "pop" and not args:
             st = self.fork_raise(st, z3.Length(t) == 0, "IndexError")
@@ -441,10 +473,10 @@ class C14Executor(BytesMixin, ZListMixin, UnitsExecutor):
                 return []
             n = z3.Length(t)
             self.note_store(st, obj.ref, node)
-            st.heap[obj.ref] = HeapObj("zlist", z3.SubSeq(t, 0, n - 1), None, o.fresh)
-            return [(st, VStr(t[n - 1]))]
+            st.heap[obj.ref] = HeapObj("zlist", z3.SubSeq(t, 0, n - 1), o.cls, o.fresh)
+            return [(st, zelem(o.cls, t[n - 1]))]
         if name == "copy":
-            return [(st, zl(st, self, t))]
+            return [(st, zl(st, self, t, ekind=o.cls))]
         raise Unsupported(f"{self.loc(node)} {name} on a sequence-valued list")
 
     def get_index(self, st, base, idx, node):
@@ -462,7 +494,7 @@ class C14Executor(BytesMixin, ZListMixin, UnitsExecutor):
             st = self.fork_raise(st, z3.Or(it >= n, it < -n), "IndexError")
             if st is None:
                 return []
-            return [(st, VStr(t[z3.If(it < 0, it + n, it)]))]
+            return [(st, zelem(st.obj(base.ref).cls, t[z3.If(it < 0, it + n, it)]))]
         return super().get_index(st, base, idx, node)
 
     def havoc_loop_state(self, st, body, spec, extra_names=()):
@@ -486,7 +518,9 @@ class C14Executor(BytesMixin, ZListMixin, UnitsExecutor):
             st.heap[r] = HeapObj("obj", {}, "__zlist_placeholder__", saved[r].fresh)
         super().havoc_loop_state(st, body, spec, extra_names)
         for r in zrefs:
-            st.heap[r] = HeapObj("zlist", z3.Const(fresh_name("zl"), SS), None, saved[r].fresh)
+            st.heap[r] = HeapObj("zlist", z3.Const(fresh_name("zl"), SS), "str", saved[r].fresh)
+        if self._has_yield(body) and "YZ" in st.ghost:
+            st.ghost["YZ"] = {k: z3.Const(fresh_name(f"YZ.{k}"), v.sort()) for k, v in st.ghost["YZ"].items()}
 
     def _only_str_appends(self, st, body, name):
         """Every `name.append(x)` in the body appends a value that is a string in the current scope (loop targets over
@@ -498,6 +532,162 @@ class C14Executor(BytesMixin, ZListMixin, UnitsExecutor):
                     if len(sub.args) != 1:
                         return False
         return True
+
+
+class ViewMixin:
+    """Unit / document views over abstract content objects (data_types.py)."""
+    ZFIELDS: dict = {}        # (class, field) -> element sort: list field modelled as a z3 sequence
+    OFIELDS: dict = {}        # (class, field) -> sort: opaque value (a table: list of rows) with symbolic truthiness
+    VIEW: dict = {}           # contract target -> "images" | "tables" | "units"
+    UNIT_SPEC: dict = {}      # contract target -> fn(ex, st, elem VExt) -> Seq term of the document tables of the element
+
+    def field_values(self, st, obj, f, kind):
+        key = (obj.sort, f)
+        if key in self.ZFIELDS:
+            es = self.ZFIELDS[key]
+            return [(st, zl(st, self, zfield(obj.sort, f, es)(obj.t), fresh=False, ekind=("obj", es)))]
+        if key in self.OFIELDS:
+            es = self.OFIELDS[key]
+            return [(st, VExt(es, ofield(obj.sort, f, es)(obj.t)))]
+        return super().field_values(st, obj, f, kind)
+
+    def view_mode(self):
+        return self.VIEW.get(self.contract.target) if self.contract is not None and self.inline_depth == 0 else None
+
+    def yz(self, st):
+        return st.ghost.get("YZ")
+
+    def yz_init(self, st, comps):
+        st.ghost["YZ"] = dict(comps)
+
+    def b_collection(self, st, name, args, node):
+        if args and self.is_zlist(st, args[0]) and name in ("list", "tuple"):
+            o = st.obj(args[0].ref)
+            return [(st, zl(st, self, o.data, ekind=o.cls))]
+        return super().b_collection(st, name, args, node)
+
+    def wrap_comp(self, n, st):
+        """`[Ctor(field=x) for x in <sequence-valued list of objects>]` -> the same sequence, elements wrapped by Ctor."""
+        if len(n.generators) != 1 or n.generators[0].ifs or not isinstance(n.generators[0].target, ast.Name):
+            return None
+        e = n.elt
+        var = n.generators[0].target.id
+        if not (isinstance(e, ast.Call) and isinstance(e.func, ast.Name) and not e.args and len(e.keywords) == 1
+                and isinstance(e.keywords[0].value, ast.Name) and e.keywords[0].value.id == var):
+            return None
+        if self.dataclass_fields(e.func.id) is None:
+            return None
+        mark = len(self.sinks[-1])
+        res = self.ev(n.generators[0].iter, st.fork())
+        del self.sinks[-1][mark:]
+        if len(res) != 1 or not self.is_zlist(res[0][0], res[0][1]):
+            return None
+        ek = res[0][0].obj(res[0][1].ref).cls
+        if not (isinstance(ek, tuple) and ek[0] == "obj"):
+            return None
+        out = []
+        for (s2, it) in self.ev(n.generators[0].iter, st):
+            out.append((s2, zl(s2, self, s2.obj(it.ref).data, ekind=("wrap", e.func.id, e.keywords[0].arg, ek))))
+        return out
+
+    def table_of(self, st, v, node):
+        """[(state, table term)] : observation `v.get_table()` of a table object."""
+        out = []
+        for (s1, t) in self.call_method(st, v, "get_table", [], {}, node):
+            if not (isinstance(t, VExt) and t.sort == "__table__"):
+                raise Unsupported(f"{self.loc(node)} get_table() gives {t!r}")
+            out.append((s1, t.t))
+        return out
+
+    def obs_tables(self, st, lst, node):
+        """[(state, Seq(table) term)]: the tables `[t.get_table() for t in lst]`."""
+        TS = z3.SeqSort(ext_sort("__table__"))
+        if self.is_zlist(st, lst):
+            o = st.obj(lst.ref)
+            ek = o.cls
+            if isinstance(ek, tuple) and ek[0] == "wrap" and ek[3] == ("obj", "__table__"):
+                # check on an arbitrary element that the wrapper's get_table() returns the wrapped value
+                probe = VExt("__table__")
+                s0 = st.fork()
+                w = self.new_obj(s0, ek[1], {ek[2]: probe})
+                rs = self.table_of(s0, w, node)
+                if len(rs) != 1 or not z3.eq(rs[0][1], probe.t):
+                    raise Unsupported(f"{self.loc(node)} {ek[1]}.get_table() is not the wrapped value")
+                return [(st, o.data)]
+            raise Unsupported(f"{self.loc(node)} tables of kind {ek!r}")
+        items = self.concrete_items(st, lst)
+        if items is None:
+            raise Unsupported(f"{self.loc(node)} tables {lst!r}")
+        states = [(st, z3.Empty(TS))]
+        for it in items:
+            nxt = []
+            for (s1, acc) in states:
+                for (s2, t) in self.table_of(s1, it, node):
+                    nxt.append((s2, z3.Concat(acc, z3.Unit(t)) if not z3.eq(acc, z3.Empty(TS)) else z3.Unit(t)))
+            states = nxt
+        return states
+
+    def current_element(self, st, cls):
+        """The loop variable holding the element (abstract instance of `cls`) in the innermost frame."""
+        for name, v in st.frame.env.items():
+            if isinstance(v, VExt) and v.sort == cls and name != "self":
+                return v
+        return None
+
+    def e_ListComp(self, n, st):
+        r = self.wrap_comp(n, st)
+        if r is not None:
+            return r
+        return super().e_ListComp(n, st)
+
+    def e_Yield(self, n, st):
+        mode = self.view_mode()
+        if mode is None:
+            return super().e_Yield(n, st)
+        out = []
+        for (s, v) in self.ev(n.value, st):
+            s.yielded = s.yielded + [v]
+            y = dict(self.yz(s))
+            if mode == "images":
+                if not isinstance(v, VExt):
+                    raise Unsupported(f"{self.loc(n)} yield of {v!r} in an image iterator")
+                y["img"] = z3.Concat(y["img"], z3.Unit(v.t))
+                s.ghost["YZ"] = y
+                out.append((s, NONE))
+            elif mode == "tables":
+                for (s2, t) in self.table_of(s, v, n):
+                    y2 = dict(y)
+                    y2["tab"] = z3.Concat(y["tab"], z3.Unit(t))
+                    s2.ghost["YZ"] = y2
+                    out.append((s2, NONE))
+            else:       # units: observe get_images() and get_tables() through the real accessors
+                for (s1, imgs) in self.call_method(s, v, "get_images", [], {}, n):
+                    if not self.is_zlist(s1, imgs):
+                        raise Unsupported(f"{self.loc(n)} get_images() gives {imgs!r}")
+                    it = s1.obj(imgs.ref).data
+                    for (s2, tl) in self.call_method(s1, v, "get_tables", [], {}, n):
+                        for (s3, tt) in self.obs_tables(s2, tl, n):
+                            y2 = dict(y)
+                            y2["img"] = z3.Concat(y["img"], it)
+                            y2["cnt"] = y["cnt"] + 1
+                            s3.ghost["YZ"] = y2
+                            spec = self.UNIT_SPEC.get(self.contract.target)
+                            if spec is not None:
+                                want = spec(self, s3)
+                                TS = z3.SeqSort(ext_sort("__table__"))
+                                self.add_vc("ensures", "unit-tables-are-document-tables-of-the-same-element", s3.pc,
+                                            z3.Or(tt == want, tt == z3.Empty(TS)), loc=self.loc(n))
+                            out.append((s3, NONE))
+        return out
+
+    def truth(self, st, v):
+        if isinstance(v, VExt) and v.sort == "__table__":
+            return VBool(TRUTHY(v.t))
+        return super().truth(st, v)
+
+
+class C14Executor(ViewMixin, _C14Base):
+    pass
 
 
 def install_models(reg):
